@@ -77,6 +77,8 @@ struct Gen3<'a> {
     vol_kind: u8,
     /// cap on the queue length of the step being filled
     max_pending: usize,
+    /// outstanding volume per asset (the executor's validity rule, mirrored so that the generator's own model stays valid)
+    budget: Vec<u64>,
 }
 
 impl<'a> Gen3<'a> {
@@ -93,7 +95,10 @@ impl<'a> Gen3<'a> {
         let v = match self.vol_kind {
             0 => self.r.range(1, 2) as u32,
             1 => self.r.range(1, 10) as u32,
-            _ => self.r.range(1, 100_000) as u32,
+            2 => self.r.range(1, 100_000) as u32,
+            // whales: a handful of these exhaust the 2^32 bound on outstanding volume; over several steps the traded
+            // volume of the run exceeds it
+            _ => self.r.range(1 << 26, 1 << 30) as u32,
         };
         if self.p.asym && !bid {
             v * 3 + 7
@@ -116,9 +121,10 @@ impl<'a> Gen3<'a> {
         }
     }
     fn new_order(&mut self, a: usize, bid: bool, vol: u32, price: Option<u32>) -> Option<usize> {
-        if !self.room() {
+        if !self.room() || self.budget[a] + vol as u64 > PMAX as u64 {
             return None;
         }
+        self.budget[a] += vol as u64;
         let trader = if self.r.chance(0.05) { u32::MAX - self.r.below(3) as u32 } else { self.r.below(6) as u32 };
         self.ops.push(EnvOp::New { a, bid, vol, trader, price });
         match self.ms[a].create(bid, vol, trader, price) {
@@ -138,8 +144,11 @@ impl<'a> Gen3<'a> {
         self.pending.push(Instr::Cancel { a, id: ord });
     }
     fn modify(&mut self, a: usize, ord: usize, price: Option<u32>, vol: Option<u32>) {
-        if !self.room() || self.n_free() >= MAX_FREE {
+        if !self.room() || self.n_free() >= MAX_FREE || vol.map(|v| v == 0 || self.budget[a] + v as u64 > PMAX as u64).unwrap_or(false) {
             return;
+        }
+        if let Some(v) = vol {
+            self.budget[a] += v as u64;
         }
         self.ops.push(EnvOp::Modify { a, ord, price, vol });
         self.pending.push(Instr::Modify { a, id: ord, p: price, v: vol });
@@ -256,6 +265,9 @@ impl<'a> Gen3<'a> {
             None => return self.maker(),
         };
         let cur = self.ms[a].orders[r].o;
+        if cur.vol == 0 {
+            return;
+        }
         let v = if cur.vol > 1 { self.r.range(1, cur.vol as u64 - 1) as u32 } else { 1 };
         // aggressor on the other side priced to reach R
         self.new_order(a, !cur.bid, v, Some(cur.price));
@@ -336,6 +348,12 @@ impl<'a> Gen3<'a> {
         for m in self.ms.iter_mut() {
             m.set_time(start + self.cfg.step_size);
         }
+        for (a, m) in self.ms.iter().enumerate() {
+            let out: u64 = m.orders.iter().filter(|o| o.o.status == NEW || o.o.status == ACTIVE).map(|o| o.o.vol as u64).sum();
+            if out < self.budget[a] {
+                self.budget[a] = out;
+            }
+        }
         self.pending.clear();
     }
 }
@@ -378,7 +396,7 @@ pub fn generate_t(prop: &str, seed: u64, thorough: bool) -> W3Scn {
     // histories / per-asset records: half of the runs use a deep alphabet so that every published level gets populated
     let deep = p.asym && r.chance(0.5);
     let alph: Vec<Vec<u32>> = ticks.iter().map(|t| make_alphabet(&mut r, *t, if deep { 3 } else if narrow { 0 } else { 1 })).collect();
-    let vol_kind = if narrow { r.range(0, 1) as u8 } else { r.range(0, 2) as u8 };
+    let vol_kind = if narrow { r.range(0, 1) as u8 } else if r.chance(0.06) { 3 } else { r.range(0, 2) as u8 };
     // large-batch runs: one step of the run receives hundreds to thousands of instructions (sizes around powers of two
     // are favoured: buffers, chunked processing and capacity limits live there)
     let mut big_pure = false;
@@ -450,7 +468,7 @@ pub fn generate_t(prop: &str, seed: u64, thorough: bool) -> W3Scn {
         r.range(9, p.max_steps)
     };
     let gen_rng = SeamRng::passthrough(cfg.rng_seed);
-    let mut g = Gen3 { r: &mut r, p: &p, cfg: cfg.clone(), alph, ms, n_orders: vec![0; assets], pending: vec![], ops: vec![], gen_rng, vol_kind, max_pending: 64 };
+    let mut g = Gen3 { r: &mut r, p: &p, cfg: cfg.clone(), alph, ms, n_orders: vec![0; assets], pending: vec![], ops: vec![], gen_rng, vol_kind, max_pending: 64, budget: vec![0; assets] };
     let mut trading = trading0;
     let n_steps = if big.is_some() { n_steps.min(5) } else { n_steps };
     let big_step = big.map(|_| g.r.below(n_steps));
